@@ -119,7 +119,8 @@ PROPS = {
         "jobs": jobs(["defer_basic", "defer_action"], ["defer", "plain"], 1500, 60000, variants=ALLV)
                 + jobs(["defer_action"], ["defer_strict"], 300, 3000, variants=["B", "BC", "M", "MA", "MC"])
                 + jobs(["defer_cond"], ["defer", "plain", "queue"], 1500, 60000)
-                + rand_jobs("dfb", ["defer", "queue"], 600, 8000, nthorough=12) + rand_jobs("dfm", ["defer", "queue"], 600, 8000, nthorough=12),
+                + rand_jobs("dfb", ["defer", "queue"], 600, 8000, nthorough=12) + rand_jobs("dfm", ["defer", "queue"], 600, 8000, nthorough=12)
+                + rand_jobs("sto", ["defer"], 0, 6000, nthorough=8),
         "nontrivial": ["deferred"],
         "rule": "event sequences over machines with deferring states / Defer actions, public defer_event, posts with the defer API; "
                 "non-trivial = a deferred occurrence was observed pending at a quiescent point; distinct = full-trace hash",
@@ -248,7 +249,9 @@ PROPS = {
                 + [job("storage", "storage", 300, 10000, variants=ALLV, san="_asan"),
                    job("storage", "throws", 200, 5000, variants=ALLV, san="_asan"),
                    job("queue_nested", "storage", 200, 5000, variants=ALLV, san="_asan"),
-                   job("defer_basic", "storage", 200, 5000, variants=ALLV, san="_asan")],
+                   job("defer_basic", "storage", 200, 5000, variants=ALLV, san="_asan")]
+                + rand_jobs("sto", ["storage", "queue", "fork"], 400, 6000, nthorough=8)
+                + [dict(j, san="_asan", quick=(150 if j["quick"] else 0), thorough=2000) for j in rand_jobs("sto", ["storage"], 1, 1, nthorough=4)],
         "nontrivial": ["queued"],
         "rule": "histories of submit / defer / dispatch / copy / assign / move / clear / stop / destroy with events pending, over event "
                 "classes of 9..520 bytes, alignment up to 64, trivially copyable / non-trivial / potentially-throwing move / self-referential; "
